@@ -176,8 +176,11 @@ def summarize(results):
 
 def child_main(job):
     global _MARK_FD
+    import signal
     import warnings
     warnings.simplefilter('ignore')
+    # do not inherit an ignored SIGINT from whoever launched the check (nohup, background job)
+    signal.signal(signal.SIGINT, signal.default_int_handler)
     import tenpy
     import tenpy.tools.misc
     tenpy.tools.misc.skip_logging_setup = True
